@@ -600,6 +600,27 @@ func (e *effEngine) store(fi *core.FuncInfo, l ast.Expr, how string, pos token.P
 	}
 }
 
+// reslicedBase: x is (a local defined as) a re-slicing y[a:b] of a slice: returns y.
+func (e *effEngine) reslicedBase(fi *core.FuncInfo, x ast.Expr, depth int) ast.Expr {
+	if depth > 3 {
+		return nil
+	}
+	switch v := core.Unparen(x).(type) {
+	case *ast.SliceExpr:
+		return v.X
+	case *ast.Ident:
+		o := core.ObjOf(fi.Pkg.TypesInfo, v)
+		for _, d := range e.c.P.Locals(fi).Defs[o] {
+			if d.Kind == core.DefAssign {
+				if _, isSlice := core.Unparen(d.Expr).(*ast.SliceExpr); isSlice {
+					return e.reslicedBase(fi, d.Expr, depth+1)
+				}
+			}
+		}
+	}
+	return nil
+}
+
 func appendUniq(xs []string, s string) []string {
 	for _, x := range xs {
 		if x == s {
@@ -615,6 +636,13 @@ func (e *effEngine) call(fi *core.FuncInfo, call *ast.CallExpr) {
 	if id, ok := core.Unparen(call.Fun).(*ast.Ident); ok {
 		if b, ok := info.Uses[id].(*types.Builtin); ok {
 			switch b.Name() {
+			case "append":
+				// append(x[:n], …) — the in-place filter idiom — writes into x's backing array
+				if len(call.Args) >= 2 {
+					if base := e.reslicedBase(fi, call.Args[0], 0); base != nil {
+						e.recordWrite(fi, base, "append-in-place", call.Pos(), nil, []core.Step{{Name: "[*]"}}, nil, fi, exprStr(call.Args[0])+" (resliced, appended in place)", false)
+					}
+				}
 			case "delete":
 				e.recordWrite(fi, call.Args[0], "delete", call.Pos(), nil, []core.Step{{Name: "[*]"}}, nil, fi, exprStr(call.Args[0])+"[…]", false)
 			case "copy", "clear":
@@ -630,6 +658,7 @@ func (e *effEngine) call(fi *core.FuncInfo, call *ast.CallExpr) {
 			recvExpr = sel.X
 		}
 	}
+	_ = recvExpr
 	argFor := func(i int) ast.Expr {
 		if i == -1 {
 			return recvExpr
